@@ -186,5 +186,5 @@ def case_reject(rng: Any, ctx: Ctx, index: int) -> None:
 
 def run(ctx: Ctx) -> None:
     enable('mvref')
-    drive(ctx, case, 2400, 24000, stream=0, part='pol')
     drive(ctx, case_reject, 40, 100, stream=1, part='pol')
+    drive(ctx, case, 2400, 24000, stream=0, part='pol')
